@@ -6,6 +6,8 @@ cd "$(dirname "$0")"
 export CARGO_NET_OFFLINE=true
 (cd adbfacts && cargo build --offline --release 2>&1 | tail -3)
 test -x adbfacts/target/release/adbfacts
+(cd rxcheck && cargo build --offline --release 2>&1 | tail -3)
+test -x rxcheck/target/release/rxcheck
 mkdir -p .cache evidence/violations
-python3 analysis/extract.py A B C
+python3 analysis/extract.py A B C D E
 echo "setup ok"
